@@ -678,4 +678,30 @@ example : czech (bytes "08000000192000145398") = false := by decide +kernel
 example : iceland (bytes "0159260076545510730339") = true := by decide +kernel
 example : iceland (bytes "0159260076545510730349") = false := by decide +kernel
 
+/-! ### The Spec against external data: the example IBANs of the SWIFT registry (the literals of the
+    repository's test-suite, one or two per country) satisfy the published rule as written in `SV.Spec.National`. -/
+example : belgium (bytes "539007547034") = true := by decide +kernel   -- BE
+example : mod97_98 (bytes "1290079401028494") 14 = true := by decide +kernel   -- BA
+example : czech (bytes "08000000192000145399") = true := by decide +kernel   -- CZ
+example : czech (bytes "55000000001011038930") = true := by decide +kernel   -- CZ
+example : estonia (bytes "2200221020145685") = true := by decide +kernel   -- EE
+example : finland (bytes "12345600000785") = true := by decide +kernel   -- FI
+example : france (bytes "20041010050500013M02606") = true := by decide +kernel   -- FR
+example : iceland (bytes "0159260076545510730339") = true := by decide +kernel   -- IS
+example : italy (bytes "X0542811101000000123456") = true := by decide +kernel   -- IT
+example : mod97_98 (bytes "250120000058984") 13 = true := by decide +kernel   -- MK
+example : mod97_97 (bytes "00020001010000123456753") 21 = true := by decide +kernel   -- MR
+example : france (bytes "11222000010123456789030") = true := by decide +kernel   -- MC
+example : mod97_98 (bytes "505000012345678951") 16 = true := by decide +kernel   -- ME
+example : norway (bytes "86011117947") = true := by decide +kernel   -- NO
+example : poland (bytes "109010140000071219812874") = true := by decide +kernel   -- PL
+example : mod97_98 (bytes "000201231234567890154") 19 = true := by decide +kernel   -- PT
+example : italy (bytes "U0322509800000000270100") = true := by decide +kernel   -- SM
+example : mod97_98 (bytes "260005601001611379") 16 = true := by decide +kernel   -- RS
+example : czech (bytes "12000000198742637541") = true := by decide +kernel   -- SK
+example : mod97_98 (bytes "191000000123438") 13 = true := by decide +kernel   -- SI
+example : spain (bytes "21000418450200051332") = true := by decide +kernel   -- ES
+example : mod97_98 (bytes "0080012345678910157") 17 = true := by decide +kernel   -- TL
+example : mod97_97 (bytes "10006035183598478831") 18 = true := by decide +kernel   -- TN
+
 end SV.Props.C06
